@@ -152,18 +152,27 @@ func urlReplay(s *Summary, raw json.RawMessage) {
 func urlNames(s *Summary, c *urlCase) {
 	r := rux.New()
 	paths := map[int]string{}
+	made := map[int]*rux.Route{}
 	for _, op := range c.Ops {
 		p := fmt.Sprintf("/r%d", op.Route)
 		paths[op.Route] = p
+		if op.API == "Rename" {
+			made[op.Route].NamedTo(op.Name, r)
+			continue
+		}
 		switch op.API {
 		case "AddNamed":
-			r.AddNamed(op.Name, p, nopHandler)
+			made[op.Route] = r.AddNamed(op.Name, p, nopHandler)
 		case "NewNamedRoute+AddRoute":
-			r.AddRoute(rux.NewNamedRoute(op.Name, p, nopHandler))
+			made[op.Route] = r.AddRoute(rux.NewNamedRoute(op.Name, p, nopHandler))
 		case "NewNamedRoute+AttachTo":
-			rux.NewNamedRoute(op.Name, p, nopHandler).AttachTo(r)
+			rt := rux.NewNamedRoute(op.Name, p, nopHandler)
+			rt.AttachTo(r)
+			made[op.Route] = rt
 		case "Add+NamedTo":
-			r.Add(p, nopHandler).NamedTo(op.Name, r)
+			rt := r.Add(p, nopHandler)
+			rt.NamedTo(op.Name, r)
+			made[op.Route] = rt
 		default:
 			fatal("unknown naming api %q", op.API)
 		}
